@@ -72,7 +72,7 @@ def BufInv (b : Buf) : Prop :=
 def RInv (r : Recv) : Prop :=
   r.fc.released ≤ r.fc.acquired ∧ r.fc.acquired ≤ r.fc.latest ∧ r.fc.latest ≤ r.fc.released + r.fc.desired
   ∧ r.fc.latest ≤ maxVarInt
-  ∧ (r.fc.stopped = false → r.fc.released = r.appRead)
+  ∧ ((r.state = .reset → r.fc.stopped = true) ∧ (r.state ≠ .reset → r.fc.released = r.appRead))
   ∧ BufInv r.buf
   ∧ (r.state = .receiving → r.buf.start = r.fc.released ∧ r.buf.maxRecv ≤ r.fc.acquired)
   ∧ r.buffered + r.fc.released ≤ r.fc.acquired
@@ -273,7 +273,11 @@ theorem onData_ok {r r' : Recv} {c c' : ConnFc} {off : Nat} {d : List Nat} {fin 
           · omega
           · omega
           · omega
-          · intro hs; have := p6 hs; rw [a4] at this; have := r5 this; omega
+          · have hne : r.state ≠ .reset := by rw [hst]; intro h; cases h
+            have := r5.2 hne
+            constructor
+            · intro hs; rcases p7 with ⟨h, _⟩ | ⟨h, _⟩ <;> rw [h] at hs <;> cases hs
+            · intro _; omega
           · rcases p7 with ⟨_, hb⟩ | ⟨_, hb⟩ <;> rw [hb]
             · exact w1
             · exact bufInv_empty
@@ -330,7 +334,7 @@ theorem doReset_ok (r : Recv) (fc : StreamFc) (c : ConnFc)
   have s2 := satAdd_ge (fc.released + (fc.acquired - fc.released)) fc.desired fc.latest (by omega) h4
   have s3 := satAdd_le (c.consumed + (fc.acquired - fc.released)) c.desired
   have s4 := satAdd_ge (c.consumed + (fc.acquired - fc.released)) c.desired c.latest (by omega) hc4
-  refine ⟨⟨?_, ?_, ?_, ?_, ?_, bufInv_empty, ?_, ?_⟩, ⟨?_, ?_, ?_, ?_⟩, ?_, ?_, ?_, ?_, ?_, ?_⟩
+  refine ⟨⟨?_, ?_, ?_, ?_, ⟨fun _ => rfl, fun h => absurd rfl h⟩, bufInv_empty, ?_, ?_⟩, ⟨?_, ?_, ?_, ?_⟩, ?_, ?_, ?_, ?_, ?_, ?_⟩
   all_goals (try simp only [Recv.buffered, Buf.empty])
   all_goals (first | trivial | omega | (intro h; cases h))
 
@@ -420,18 +424,19 @@ theorem read_ok (r : Recv) (c : ConnFc) (n : Nat) (hr : RInv r) (hc : ConnInv c)
     have s3 := satAdd_le (c.consumed + k) c.desired
     have s4 := satAdd_ge (c.consumed + k) c.desired c.latest (by omega) hc4
     have hbuf : BufInv { r.buf with start := r.buf.start + k } := ⟨b1, by simp only; omega, b3⟩
+    have happ := r5.2 (by rw [hst]; intro h; cases h)
     simp only [StreamFc.release, ConnFc.release]
     split
     · split
       · refine ⟨⟨?_, ?_, ?_, ?_, ?_, bufInv_empty, ?_, ?_⟩, ⟨?_, ?_, ?_, ?_⟩, rfl, ?_, ?_, rfl, ?_⟩
         all_goals (try simp only [Recv.buffered, Buf.empty])
-        all_goals (first | omega | (intro h; first | cases h | (have := r5 h; omega)))
+        all_goals (first | omega | (intro h; cases h) | (constructor <;> intro h <;> first | cases h | omega))
       · refine ⟨⟨?_, ?_, ?_, ?_, ?_, hbuf, ?_, ?_⟩, ⟨?_, ?_, ?_, ?_⟩, rfl, ?_, ?_, rfl, ?_⟩
         all_goals (try simp only [Recv.buffered])
-        all_goals (first | omega | (intro h; first | (have := r5 h; omega) | (constructor <;> omega)))
+        all_goals (first | omega | (intro h; constructor <;> omega) | (constructor <;> intro h <;> first | cases h | omega))
     · refine ⟨⟨?_, ?_, ?_, ?_, ?_, hbuf, ?_, ?_⟩, ⟨?_, ?_, ?_, ?_⟩, rfl, ?_, ?_, rfl, ?_⟩
       all_goals (try simp only [Recv.buffered])
-      all_goals (first | omega | (intro h; first | (have := r5 h; omega) | (constructor <;> omega)))
+      all_goals (first | omega | (intro h; constructor <;> omega) | (constructor <;> intro h <;> first | cases h | omega))
   · exact stepOk_refl hr' hc
 
 theorem stop_ok (r : Recv) (c : ConnFc) (hr : RInv r) (hc : ConnInv c) : StepOk r c r.stop c := by
@@ -440,9 +445,13 @@ theorem stop_ok (r : Recv) (c : ConnFc) (hr : RInv r) (hc : ConnInv c) : StepOk 
   unfold Recv.stop
   split
   · split
-    · refine ⟨⟨r1, r2, r3, r4, r5, r6, ?_, r8⟩, hc, rfl, rfl, rfl, rfl, Nat.le_refl _⟩
+    · rename_i hst _
+      have happ := r5.2 (by rw [hst]; intro h; cases h)
+      refine ⟨⟨r1, r2, r3, r4, ⟨fun h => (by cases h), fun _ => happ⟩, r6, ?_, r8⟩, hc, rfl, rfl, rfl, rfl, Nat.le_refl _⟩
       intro h; cases h
-    · refine ⟨⟨r1, r2, r3, r4, r5, bufInv_empty, ?_, ?_⟩, hc, rfl, rfl, rfl, rfl, Nat.le_refl _⟩
+    · rename_i hst _
+      have happ := r5.2 (by rw [hst]; intro h; cases h)
+      refine ⟨⟨r1, r2, r3, r4, ⟨fun h => (by cases h), fun _ => happ⟩, bufInv_empty, ?_, ?_⟩, hc, rfl, rfl, rfl, rfl, Nat.le_refl _⟩
       · intro h; cases h
       · simp only [Recv.buffered, Buf.empty]; omega
   · exact stepOk_refl hr' hc
@@ -453,5 +462,106 @@ theorem init_inv (w : Nat) (hw : w ≤ maxVarInt) (closed : Bool) : RInv (Recv.i
 
 theorem connInit_inv (w : Nat) (hw : w ≤ maxVarInt) : ConnInv (ConnFc.init w) := by
   simp [ConnInv, ConnFc.init, hw]
+
+
+/-! ### the whole receive side of a connection -/
+
+def SysInv (w : Nat) (s : Sys) : Prop :=
+  ConnInv s.conn ∧ s.conn.desired = w ∧ (∀ r ∈ s.streams, RInv r)
+  ∧ s.conn.acquired = sumBy (fun r => r.fc.acquired) s.streams
+  ∧ s.conn.consumed = sumBy (fun r => r.fc.released) s.streams
+
+theorem sysInv_init (w : Nat) (hw : w ≤ maxVarInt) : SysInv w (Sys.init w) := by
+  refine ⟨connInit_inv w hw, rfl, ?_, rfl, rfl⟩
+  intro r hr; simp [Sys.init] at hr
+
+theorem room_of_inv {w : Nat} {s : Sys} (hs : SysInv w s) {i : Nat} {r : Recv} (hi : s.streams[i]? = some r) :
+    RInv r ∧ s.conn.consumed + r.fc.acquired ≤ s.conn.acquired + r.fc.released := by
+  obtain ⟨_, _, h3, h4, h5⟩ := hs
+  have hmem : r ∈ s.streams := List.mem_of_getElem? hi
+  refine ⟨h3 r hmem, ?_⟩
+  have := sumBy_le_of_mem (fun r => r.fc.acquired) (fun r => r.fc.released) s.streams
+    (fun x hx => (h3 x hx).1) r hmem
+  omega
+
+theorem sysInv_set {w : Nat} {s : Sys} (hs : SysInv w s) {i : Nat} {r r' : Recv} {c' : ConnFc}
+    (hi : s.streams[i]? = some r) (hok : StepOk r s.conn r' c') (cl : Option ErrorCode) :
+    SysInv w { conn := c', streams := s.streams.set i r', closed := cl } := by
+  obtain ⟨h1, h2, h3, h4, h5⟩ := hs
+  refine ⟨hok.cinv, by rw [hok.desired]; exact h2, ?_, ?_, ?_⟩
+  · intro x hx
+    rcases List.mem_or_eq_of_mem_set hx with h | h
+    · exact h3 x h
+    · subst h; exact hok.rinv
+  · have := sumBy_set (fun r => r.fc.acquired) s.streams i r r' hi
+    have := hok.acq
+    simp only at *
+    omega
+  · have := sumBy_set (fun r => r.fc.released) s.streams i r r' hi
+    have := hok.rel
+    simp only at *
+    omega
+
+theorem sysInv_step {w : Nat} {s : Sys} (hs : SysInv w s) (op : Op) : SysInv w (s.step op) := by
+  unfold Sys.step
+  split
+  · exact hs
+  · cases op with
+    | openStream w' =>
+      simp only
+      split
+      · rename_i hw'
+        obtain ⟨h1, h2, h3, h4, h5⟩ := hs
+        refine ⟨h1, h2, ?_, ?_, ?_⟩
+        · intro x hx
+          simp only [List.mem_append, List.mem_singleton] at hx
+          rcases hx with h | h
+          · exact h3 x h
+          · subst h; exact init_inv w' hw' false
+        · simp only [sumBy_append, sumBy, Recv.init, StreamFc.init]; simpa using h4
+        · simp only [sumBy_append, sumBy, Recv.init, StreamFc.init]; simpa using h5
+      · exact hs
+    | data i off d fin =>
+      simp only
+      split
+      · exact hs
+      · rename_i r hi
+        split
+        · obtain ⟨h1, h2, h3, h4, h5⟩ := hs
+          exact ⟨h1, h2, h3, h4, h5⟩
+        · rename_i r' c' hok
+          have hroom := room_of_inv hs hi
+          exact sysInv_set hs hi (onData_ok hok hroom.1 hs.1) _
+    | resetStream i fs =>
+      simp only
+      split
+      · exact hs
+      · rename_i r hi
+        split
+        · obtain ⟨h1, h2, h3, h4, h5⟩ := hs
+          exact ⟨h1, h2, h3, h4, h5⟩
+        · rename_i r' c' hok
+          have hroom := room_of_inv hs hi
+          exact sysInv_set hs hi (onReset_ok hok hroom.1 hs.1 hroom.2) _
+    | read i n =>
+      simp only
+      split
+      · exact hs
+      · rename_i r hi
+        have hroom := room_of_inv hs hi
+        exact sysInv_set hs hi (read_ok r s.conn n hroom.1 hs.1 hroom.2) _
+    | stop i =>
+      simp only
+      split
+      · exact hs
+      · rename_i r hi
+        have hroom := room_of_inv hs hi
+        exact sysInv_set hs hi (stop_ok r s.conn hroom.1 hs.1) _
+
+theorem sysInv_run {w : Nat} {s : Sys} (hs : SysInv w s) (ops : List Op) : SysInv w (s.run ops) := by
+  unfold Sys.run
+  induction ops generalizing s with
+  | nil => exact hs
+  | cons op t ih => exact ih (sysInv_step hs op)
 
 end Quic.Proofs.Lemmas.RecvFlow
